@@ -200,6 +200,24 @@ func short(s string, n int) string {
 // exits. coverage must already hold the level's keys.
 func (r *Run) Finish(coverage map[string]any, assumptions []string) {
 	frontier := r.Frontier()
+	if dump := os.Getenv("VERIF_DUMP_FAILURES"); dump != "" {
+		// debugging aid: every registered failure with the parents that also failed
+		var all []map[string]any
+		r.mu.Lock()
+		for _, f := range r.failures {
+			var failingParents []string
+			for _, p := range f.Parents {
+				if r.failKind[f.Kind][p] {
+					failingParents = append(failingParents, p)
+				}
+			}
+			all = append(all, map[string]any{"kind": f.Kind, "witness": f.Witness, "failing_parents": failingParents, "what": f.What})
+		}
+		r.mu.Unlock()
+		sort.Slice(all, func(i, j int) bool { return fmt.Sprint(all[i]["kind"], all[i]["witness"]) < fmt.Sprint(all[j]["kind"], all[j]["witness"]) })
+		b, _ := json.MarshalIndent(all, "", " ")
+		os.WriteFile(dump, b, 0o644)
+	}
 	known := r.loadFindings()
 	open := map[string]Finding{}
 	for _, k := range known {
